@@ -1,3 +1,4 @@
+import RavenModel.Model.Plan
 import RavenModel.Model.Session
 import RavenModel.Model.MailInv
 /-! # C10 — flag updates are exact, persistent and respect read-only selection -/
@@ -66,5 +67,15 @@ example : (sessRun (Store.add (Store.init 1) (b!"INBOX") 1 []).1 none
     [.examine (b!"INBOX"), .store [deleted] .add [1], .expunge, .close]).1 = (Store.add (Store.init 1) (b!"INBOX") 1 []).1 :=
   examine_never_mutates _ _ _ rfl (by decide)
 example : newFlags [seen, (b!"kw")] [(b!"kw"), recent, deleted] .add = [seen, (b!"kw"), deleted] := by decide
+
+/-! ## the statements behind the conditional flag write and COPY (plan regenerated from /repo on every run) -/
+
+/-- C10.8  `ApplyFlagChange` is the compare-and-swap loop the model's `casStore` step describes: **inside** the retry loop the new
+flag list is computed from the flags last read, written under the condition that they are still the stored ones, and re-read
+when they are not — a value computed once outside the loop would write a stale list over another session's change. -/
+theorem plan_flag_change_recomputes :
+    Raven.Plan.trace (b!"message.ApplyFlagChange") =
+      [(b!"loop {"), (b!"call message.CalculateNewFlags"), (b!"sql UPDATE message_mailbox"), (b!"sql SELECT message_mailbox"), (b!"}")] := by
+  decide
 
 end Raven.Props.C10
